@@ -282,6 +282,8 @@ class Verifier(Calls):
         for comp, term in list(self.st.heap.items()):
             if comp in ("$alloc", "$G"):
                 continue
+            if comp == "$hist" and "$hist" not in listed and not c.frame_hist:
+                continue    # ghost call histories are framed only on request
             before = self.comp(comp, pre)
             if term.eq(before):
                 continue
